@@ -25,6 +25,7 @@ type Obs struct {
 	Body     []byte    `json:"-"`
 	BodyLen  int       `json:"body_len"`
 	BodyErr  string    `json:"body_err,omitempty"`
+	Streamed bool      `json:"streamed,omitempty"`
 	Trailers []wire.KV `json:"trailers,omitempty"`
 }
 
@@ -81,6 +82,7 @@ func (e *Echo) handle(c context.Context, ctx *app.RequestContext) {
 		o.Headers = append(o.Headers, wire.KV{K: string(k), V: string(v)})
 	})
 	if ctx.Request.IsBodyStream() {
+		o.Streamed = true
 		var b []byte
 		var err error
 		if e.Cfg.ReadBody != nil {
